@@ -1,8 +1,9 @@
 # -*- coding: utf-8 -*-
 """C12 - outputs are stored only if valid; success requires spec-conforming outputs (DESIGN.md 3, C12).
 
-Bounded-exhaustive: output specs x every sequence of <=2 (thorough 3) emissions (path, value) x final return; a fresh
-Process class per run (``out`` creates dynamic namespaces in the class's spec); compared with ``pv.refports``.
+Bounded-exhaustive: output specs x every sequence of <=2 (thorough 3) emissions (path, value) x final return, each on a
+fresh Process class, and every pair (emission of a first process, emission of a second process of the same class);
+compared with ``pv.refports``.
 """
 from __future__ import annotations
 
@@ -131,9 +132,9 @@ class Recorder(plumpy.ProcessListener):
         self.emitted.append((output_port, value))
 
 
-def run_case(desc: tuple, emissions: tuple, final: tuple, loop: VLoop) -> List[dict]:
-    violations: List[dict] = []
-    log: List[Any] = []
+def make_proc_class(desc: tuple, cell: Dict[str, Any]) -> type:
+    """A Process class for the output spec ``desc``; what an instance emits and returns is read from ``cell`` when it runs
+    (so that one class can be used for several processes)."""
 
     class Proc(plumpy.Process):
         @classmethod
@@ -148,7 +149,8 @@ def run_case(desc: tuple, emissions: tuple, final: tuple, loop: VLoop) -> List[d
             build_namespace(top, desc)
 
         def run(self) -> Any:
-            for path, value in emissions:
+            log, final = cell['log'], cell['final']
+            for path, value in cell['emissions']:
                 before = copy.deepcopy(self.outputs)
                 try:
                     self.out(path, value)
@@ -159,9 +161,31 @@ def run_case(desc: tuple, emissions: tuple, final: tuple, loop: VLoop) -> List[d
                 return plumpy.UnsuccessfulResult(final[1])
             return final[1]
 
+    return Proc
+
+
+def run_case(desc: tuple, emissions: tuple, final: tuple, loop: VLoop, earlier: Optional[tuple] = None) -> List[dict]:
+    """One process of a fresh class.  With ``earlier`` (a sequence of emissions) another process of the same class has
+    emitted those before: what this process may store must not depend on it."""
+    violations: List[dict] = []
+    log: List[Any] = []
+    cell: Dict[str, Any] = {'emissions': emissions, 'final': final, 'log': log}
+    Proc = make_proc_class(desc, cell)
+    case = {'spec': desc, 'emissions': emissions, 'final': final}
+    extra_feats: Dict[str, Any] = {}
+    if earlier is not None:
+        case['earlier'] = earlier
+        extra_feats['after_earlier_process_of_the_class'] = True
+        cell.update(emissions=earlier, final=FINALS[1], log=[])
+        loop.ticks = 0
+        first = Proc(pid='c12-first', loop=loop)
+        loop.create_task(first.step_until_terminated())
+        loop.drain()
+        cell.update(emissions=emissions, final=final, log=log)
+
     def violate(clause: str, detail: Any = None, **feats: Any) -> None:
-        violations.append({'clause': clause, 'features': feats, 'detail': detail,
-                           'case': {'spec': desc, 'emissions': emissions, 'final': final}})
+        feats.update(extra_feats)
+        violations.append({'clause': clause, 'features': feats, 'detail': detail, 'case': case})
 
     loop.ticks = 0  # the loop is shared by all cases of a spec; the horizon is per case
     proc = Proc(pid='c12', loop=loop)
@@ -265,6 +289,21 @@ def check_spec(args: Tuple[tuple, int]) -> Dict[str, Any]:
                     out['nontrivial'] += 1
                 if len(out['violations']) < 40:
                     out['violations'].extend(vs[:3])
+        # two processes of one class: every single emission after every single emission of an earlier process
+        single = [(p, v) for p in paths_for(desc) for v in VALUES[:2]]
+        for e1 in single:
+            for e2 in single:
+                out['n'] += 1
+                out['pairs'] = out.get('pairs', 0) + 1
+                case = {'spec': desc, 'emissions': (e2,), 'final': FINALS[1], 'earlier': (e1,)}
+                try:
+                    vs = explore.guarded_case(case, run_case, desc, (e2,), FINALS[1], loop, (e1,))
+                except Exception as exc:  # noqa: BLE001
+                    vs = [{'clause': 'harness-raised', 'features': {'exc': type(exc).__name__}, 'detail': repr(exc), 'case': case}]
+                if model_out(desc, *e1)[0] and e1[0] != e2[0]:
+                    out['nontrivial'] += 1
+                if len(out['violations']) < 60:
+                    out['violations'].extend(vs[:3])
     finally:
         loop.shutdown()
     return out
@@ -296,8 +335,9 @@ def run_check(tier: str, seed: int, workers: Any) -> Dict[str, Any]:
                 'levels, port pairs, a nested namespace over required x static/dynamic/typed x validator with 0-2 ports '
                 '(also next to a port under a dynamic top level) x every sequence of <= '
                 f'{max_len} emissions over (declared leaf paths + undeclared u and u.v at every level) x values '
-                '{1,"a",-1} x final return {None, 5, UnsuccessfulResult(3)}; a fresh class per run; non-trivial = a '
-                'sequence with an accepted and a rejected emission',
+                '{1,"a",-1} x final return {None, 5, UnsuccessfulResult(3)}; a fresh class per run; plus, for every spec, every '
+                'single emission by a second process of a class whose first process made any single emission (values 1, "a"); '
+                'non-trivial = a sequence with an accepted and a rejected emission',
         'samples': [{'spec': repr(sample), 'emissions': repr(list(itertools.islice(emission_seqs(sample, 2), 5, 6)))}],
         'exhaustive': True,
     }
@@ -313,6 +353,7 @@ def replay(doc: Dict[str, Any]) -> List[dict]:
     loop = VLoop()
     loop.install()
     try:
-        return run_case(to_tuple(case['spec']), to_tuple(case['emissions']), to_tuple(case['final']), loop)
+        earlier = to_tuple(case['earlier']) if case.get('earlier') is not None else None
+        return run_case(to_tuple(case['spec']), to_tuple(case['emissions']), to_tuple(case['final']), loop, earlier)
     finally:
         loop.shutdown()
